@@ -511,7 +511,12 @@ func (proj *Project) loadPackage(wg *sync.WaitGroup, path string) error {
 		switch {
 		case e.IsDir():
 			if e.Name() != ".dawn" {
-				pkg, _ := label.Join(path, e.Name())
+				pkg, err := label.Join(path, e.Name())
+				if err != nil {
+					// A directory whose name cannot be part of a label (it contains a colon,
+					// say) cannot hold packages.
+					continue
+				}
 				if err := proj.loadPackage(wg, pkg); err != nil {
 					return err
 				}
